@@ -1,4 +1,6 @@
+import Proofs.C05
 import Proofs.C06
 import Proofs.C07
 import Proofs.GenEq.Cmp
 import Proofs.GenEq.Cont
+import Proofs.GenEq.Det
